@@ -94,7 +94,7 @@ def run(ctx):
         rep.anchor_missing('R-C06-1', 'R-C06-1/params', 'prover has no witness / statement parameter')
         return
     W, S = 'p%d' % wit_p, 'p%d' % st_p
-    rows = guard_table(ctx, p)
+    rows = guard_table(ctx, p, deep=True)
     chal = challenge_functions(ctx)
     matched = set()
 
@@ -188,6 +188,16 @@ def run(ctx):
 
     # ---- R-C06-2: every witness-dependent rejecting guard is one of the above
     n_t = 0
+    # a documented check written as `iter.any(..)` / through a helper appears as a call-site row plus the rows spliced from the
+    # closure / helper: matching either accounts for the other; rows inside a matched helper call are part of that check
+    changed = True
+    while changed:
+        changed = False
+        for i, r in enumerate(rows):
+            pr = r.get('parent')
+            if pr is not None and ((i in matched) != (pr in matched)):
+                matched |= {i, pr}
+                changed = True
     for i, r in enumerate(rows):
         src = witness_sources(ctx, p, r['guard'].cond, wit_p, chal)
         if not src:
